@@ -164,3 +164,56 @@ PROPS["C05"] = dict(
                             "the PMPI layer and its logging"],
     assumptions=["abstract MPI semantics: per-pair FIFO, synchronising all-reduce/all-gather/barrier; Bcast/Gather/Reduce do not advance the epoch"],
 )
+
+
+PROPS["C11"] = dict(
+    module="RaptorModel.Props.C11",
+    harnesses=["h_c11"],
+    configs=seqpar_configs("h_c11", [1, 2, 3, 4, 7], list(range(1, 17))),
+    rule=("random square systems (n 1..15) with a stored non-zero diagonal of either sign, non-symmetric, diagonal-only rows, shuffled storage; "
+          "omega from {1, 1/2, 3/4, 5/4, 2/3, 0.9, 1.7, 0.1} or uniform in (0.05,1.95); 1..3 sweeps; Jacobi / SOR / SSOR; a quarter of the cases "
+          "start at the exact solution of an integer system (fixed-point clause); distributed: layouts incl. empty ranks, standard and "
+          "node-aware halo. Non-trivial = n > 1."),
+    trusted=COMMON_TRUST + ["Lean Float = IEEE double with the same operation order as the C++; comparison tolerance 1e-10 relative"],
+    assumptions=["rounding: the theorems are over an exact field; the run compares at double precision"],
+)
+
+
+def amg_configs(mode, quick_np, thorough_np):
+    def configs(tier, seed):
+        return [{"tag": f"h_amg-{mode}-np{n}", "harness": "h_amg", "np": n, "args": [mode], "env": {"PPN": 2}} for n in nps(tier, quick_np, thorough_np)]
+    return configs
+
+
+AMG_RULE = ("system families: rotated anisotropic diffusion stencils, weighted graph Laplacians of random (dis)connected graphs + shift, "
+            "variable-coefficient diffusion, non-symmetric convection-diffusion, systems with decoupled diagonal-only rows, tiny systems; "
+            "solver options drawn at random: RS with RS/CLJP/Falgout/PMIS/HMIS x Direct/ModClassical/Extended, smoothed aggregation; Jacobi/SOR/SSOR, "
+            "weights, 1-2 sweeps, strength threshold, max_coarse, max_levels, tap level; layouts incl. empty ranks. ")
+
+PROPS["C09"] = dict(
+    module="RaptorModel.Props.C09",
+    harnesses=["h_amg"],
+    configs=amg_configs("C09", [1, 2, 3, 4], [1, 2, 3, 4, 5, 7, 8, 16]),
+    rule=AMG_RULE + ("Per hierarchy a history of 10-16 operations: cycles on algebraically related inputs (x1,b1), (x2,b2), (a x1+c x2, a b1+c b2), the exact "
+          "solution pair, a repeated cycle later in the history, full solves of other systems, PCG and BiCGStab preconditioned by the hierarchy. "
+          "Non-trivial = more than one unknown."),
+    trusted=COMMON_TRUST + ["LAPACK dgetrf/dgetrs (the driver uses its own Gaussian elimination)", "Float tolerance 1e-7 relative to the vector magnitude"],
+    assumptions=["rounding: theorems over an exact field; cycles compared at double precision"],
+)
+PROPS["C01"] = dict(
+    module="RaptorModel.Props.C01",
+    harnesses=["h_amg"],
+    configs=amg_configs("C01", [1, 2, 3, 4], [1, 2, 3, 4, 5, 7, 8, 16]),
+    rule=AMG_RULE + ("Per hierarchy one solve() (random or zero initial guess; manufactured, random or zero right-hand side; tolerance 1e-7 or 1e-4; "
+          "iteration limit 1..30) and the same iteration replayed cycle by cycle; the driver recomputes every relative residual with its own SpMV and norm."),
+    trusted=COMMON_TRUST + ["the driver's independent SpMV/norm at double precision"],
+    assumptions=["rounding: reported vs true residual compared with relative tolerance 1e-6"],
+)
+PROPS["C10"] = dict(
+    module="RaptorModel.Props.C10",
+    harnesses=["h_amg"],
+    configs=amg_configs("C10", [1], [1]),
+    rule=AMG_RULE + ("SPD families only, one process, SOR/SSOR with weight 1; manufactured solution; the A-norm of the error is evaluated after every cycle."),
+    trusted=COMMON_TRUST + ["energy norm evaluated at double precision with relative slack 1e-9"],
+    assumptions=["rounding error (theorem over the reals)"],
+)
